@@ -15,12 +15,22 @@ static void ev_prod(const char *f, uint64_t h) {
 }
 static void prod_arr(const char *f, const H3Index *a, int64_t n) { for (int64_t i = 0; i < n; i++) if (a[i]) ev_prod(f, a[i]); }
 
+/* whatever a function wrote beyond the documented size of its output (into the canary area of a guarded buffer) is a cell it
+ * produced too: each such word is an observation like the others (the canary bytes themselves never form a valid cell) */
+static void prod_beyond(const char *f, H3Index *a, int64_t n) {
+    if (gb_ok(a)) return;
+    unsigned char *e = (unsigned char *)(a + n); unsigned char c0 = e[8191];      /* the last canary byte tells the pattern unless 8 KB were overrun */
+    for (int k = 0; k < 1024; k++) { int dirty = 0; for (int b = 0; b < 8; b++) if (e[8 * k + b] != c0) dirty = 1; if (dirty) { H3Index w; memcpy(&w, e + 8 * k, 8); if (w) ev_prod(f, w); } }
+    vt_overrun_check(a, f, 0);
+}
+
 static void do_produced(int n) {
     H3Index r0[122]; getRes0Cells(r0); prod_arr("getRes0Cells", r0, 122);
     for (int r = 0; r <= 15; r++) { H3Index p[12]; getPentagons(r, p); prod_arr("getPentagons", p, 12); }
     for (int it = 0; it < n; it++) {
         int res = (int)vt_randn(16);
         H3Index h = vt_random_cell(res), o, o2[2];
+        if (it % 8 == 5) { H3Index pp[12]; getPentagons(res, pp); h = pp[vt_randn(12)]; }       /* pentagon parents: the deleted sub-tree */
         LatLng g = {(vt_rand01() - 0.5) * M_PI, (vt_rand01() - 0.5) * 2 * M_PI};
         if (!latLngToCell(&g, res, &o)) ev_prod("latLngToCell", o);
         if (res > 0 && !cellToParent(h, (int)vt_randn(res + 1), &o)) ev_prod("cellToParent", o);
@@ -28,19 +38,19 @@ static void do_produced(int n) {
         if (!cellToCenterChild(h, cr, &o)) ev_prod("cellToCenterChild", o);
         if (cr - res <= 3) {
             int64_t sz; cellToChildrenSize(h, cr, &sz);
-            H3Index *ch = calloc(sz, sizeof(H3Index)); cellToChildren(h, cr, ch); prod_arr("cellToChildren", ch, sz);
+            H3Index *ch = gb_alloc(sz, sizeof(H3Index), 0); cellToChildren(h, cr, ch); prod_arr("cellToChildren", ch, sz); prod_beyond("cellToChildren", ch, sz);
             int64_t pos = (int64_t)vt_randn(sz);
             if (!childPosToCell(pos, h, cr, &o)) ev_prod("childPosToCell", o);
             /* compact the children and some of their neighbours */
-            H3Index *cs = calloc(sz, sizeof(H3Index));
-            if (!compactCells(ch, cs, sz)) prod_arr("compactCells", cs, sz);
+            H3Index *cs = gb_alloc(sz, sizeof(H3Index), 0);
+            if (!compactCells(ch, cs, sz)) prod_arr("compactCells", cs, sz); prod_beyond("compactCells", cs, sz);
             int64_t usz;
             if (!uncompactCellsSize(cs, sz, cr, &usz) && usz <= 400) {
-                H3Index *un = calloc(usz, sizeof(H3Index));
-                if (!uncompactCells(cs, sz, un, usz, cr)) prod_arr("uncompactCells", un, usz);
-                free(un);
+                H3Index *un = gb_alloc(usz, sizeof(H3Index), 0);
+                if (!uncompactCells(cs, sz, un, usz, cr)) prod_arr("uncompactCells", un, usz); prod_beyond("uncompactCells", un, usz);
+                gb_free(un);
             }
-            free(cs); free(ch);
+            gb_free(cs); gb_free(ch);
         }
         /* childPosToCell at every depth (no enumeration needed): first, last, middle and random positions; every fourth time the
            parent is coarse (res 0..2, pentagons included) and the child resolution 12..15 */
